@@ -5,13 +5,17 @@
 // float64 is modelled as a real number in these contracts (assumption listed in the evidence).
 package tms20
 
-// axis order: which of the two orders applies is decided by table look-ups, string functions and regular
-// expressions (IsLatLon, axisOrderIsLatLon); they are trusted to return without panicking and without effects.
+// axis order from the CRS: OGC:1.3:CRS84 is lon/lat; otherwise the authority must be EPSG (any case), the code a
+// number, and the EPSG axis table (package variable epsgAxesAreLatLon, data) decides. crsErr / latlonCRS are this
+// definition; IsLatLon is verified against it (the getters of the CRS interface, strings.ToLower and
+// strconv.ParseUint are uninterpreted functions).
+//@ macro crsOGC(crs) = method(crs, Authority) == "OGC" && method(crs, Version) == "1.3" && method(crs, Code) == "CRS84"
+//@ macro crsEPSG(crs) = toLower(method(crs, Authority)) == "epsg"
+//@ macro crsErr(crs) = !crsOGC(crs) && (!crsEPSG(crs) || !parseUintOK(method(crs, Code)) || !hasKey(global(epsgAxesAreLatLon), parseUint(method(crs, Code))))
+//@ macro latlonCRS(crs) = !crsOGC(crs) && global(epsgAxesAreLatLon)[parseUint(method(crs, Code))]
 //@ func IsLatLon
-//@   prelude tmsaxis
-//@   trusted "EPSG axis table look-up through CRS interface methods, strings and strconv; deterministic, returns a verdict or an error, no panic, no effect"
-//@   ensures (result1 != nil) == crsErr(crs)
-//@   ensures result1 == nil ==> result0 == latlonCRS(crs)
+//@   ensures[C15,C14,C03] (result1 != nil) == crsErr(crs)
+//@   ensures[C15,C14,C03] result1 == nil ==> result0 == latlonCRS(crs)
 //@ func axisOrderIsLatLon
 //@   prelude tmsaxis
 //@   trusted "string formatting and regular expressions; deterministic, returns a verdict or an error, no panic, no effect"
